@@ -39,6 +39,7 @@ package archiver
 //@   modifies models.URL::*, eofs, closes, drains
 //@   local spooled int = 0
 //@   after NewSpooledTempFile(?)#1: spooled = 1
+//@   assert copyWithTimeout(*): [from-body] @C02 arg1 == u.response.Body // C02: ProcessBody reads the body to EOF on every branch (what is read to its end is the response body itself, not a buffer holding its first bytes)
 //@   ensures [closes-range] @C16 io.nCloses() >= old(io.nCloses()) + 1 && io.nCloses() <= old(io.nCloses()) + 2 // (what callers see of [closes]: the response body is closed exactly once, at most one more Close for the spool file)
 //@   ensures [closes] @C16 io.nCloses() == old(io.nCloses()) + 1 + ite(result != nil && spooled == 1, 1, 0) // C16: no response body or temporary file remains open (the response body is always closed; a spool file created for a body whose read then fails is closed as well)
 //@   ensures [to-eof] @C02 result == nil ==> io.nEOF() > old(io.nEOF()) // C02: ProcessBody reads the body to EOF on every branch so the wire capture is complete
